@@ -33,6 +33,13 @@ def header_lines():
           ("two-lines", [ct + b"other\r\n", ct + BD.encode() + b"\r\n"]), ("nul", [ct + b"ab\0cd\r\n"]), ("high", [ct + b"\xff\xfe\x80\r\n"]),
           ("utf8", [ct + "größe".encode() + b"\r\n"]), ("percent", [ct + b"%s%n%d\r\n"]), ("only-cr", [b"\r"]), ("boundary-only", [b"boundary=\r"]),
           ("range-bracket", [ct + b"[a-\r\n"]), ("backref", [ct + b"(a)\\1\r\n"]), ("brace", [ct + b"a{1,70000}\r\n"])]
+    # every truncation of a header line (the transport hands lines over without a terminating NUL, in a buffer of exactly
+    # their length): a comparison or search that runs past the end of a short line is visible to the sanitizer
+    full = ct + BD.encode() + b"\r\n"
+    for k in range(0, len(full)):
+        H.append(("prefix-%d" % k, [full[:k]]))
+    for k in (1, 5, 12, 13, 14):
+        H.append(("upper-prefix-%d" % k, [full.upper()[:k]]))
     return H
 
 
